@@ -343,6 +343,7 @@ class Respell:
     def __init__(self, r, mode):
         self.r, self.mode = r, mode
         self.count = 0          # groups opened so far (print order)
+        self.multi = False      # inside a (?m:..) scope: ^ and $ are line anchors, not \A / \z
 
     def ws(self):
         if self.mode != "x":
@@ -364,9 +365,9 @@ class Respell:
         if k == "cls":
             return t[1]
         if k == "assert":
-            if m == "esc" and t[1] == "^":
+            if m == "esc" and t[1] == "^" and not self.multi:
                 return "\\A"
-            if m == "esc" and t[1] == "$":
+            if m == "esc" and t[1] == "$" and not self.multi:
                 return "\\z"
             return t[1]
         if k == "empty":
@@ -407,13 +408,22 @@ class Respell:
         if k == "look":
             return "(?" + t[1] + self.show(t[2], 0) + ")"
         if k == "flag":
+            on, _, off = t[1].partition("-")
+            saved = self.multi
+            if "m" in on:
+                self.multi = True
+            if "m" in off:
+                self.multi = False
+            body = self.show(t[2], 0)
+            self.multi = saved
             if m == "flag":
-                return "(?:(?" + t[1] + ")" + self.show(t[2], 0) + ")"
-            return "(?" + t[1] + ":" + self.show(t[2], 0) + ")"
+                return "(?:(?" + t[1] + ")" + body + ")"
+            return "(?" + t[1] + ":" + body + ")"
         if k == "rep":
-            body = self.show(t[1], 2)
             if t[1][0] == "rep" or t[1][0] in ("K", "G", "condg0"):
                 body = "(?:" + self.show(t[1], 0) + ")"
+            else:
+                body = self.show(t[1], 2)
             lo, hi = t[2], t[3]
             w = self.ws
             if (lo, hi) == (0, None):
